@@ -137,4 +137,57 @@ def jsonReread (f : LFrame) : LFrame :=
         else { c with cells := cells, strict := true }
       | _ => c) }
 
+/-! ### String(): header, rule, at most 50 rows, every cell right-aligned or cut to the column width -/
+
+def fixLen (s : Bytes) (pad : UInt8) (w : Nat) : Bytes :=
+  if s.length > w then s.take (w - 3) ++ [46, 46, 46]
+  else List.replicate (w - s.length) pad ++ s
+
+def typeLetter : CType → Bytes
+  | .int => [105] | .float => [102] | .bool => [98] | .string => [115] | .enum => [101] | .undef => [85]
+
+/-- A piece of the expected output: exact bytes, or a float cell occupying `w` bytes. -/
+inductive Piece where
+  | lit (b : Bytes)
+  | flt (w : Nat) (bits : UInt64)
+
+def stringPieces (f : LFrame) : List Piece :=
+  let hdrs := f.cols.map (fun c => c.name ++ [40] ++ typeLetter c.ty ++ [41])
+  let ws := hdrs.map (fun h => max h.length 5)
+  let sep (ps : List (List Piece)) : List Piece := (ps.intersperse [Piece.lit [32]]).flatten
+  let header := sep ((List.zip hdrs ws).map (fun (h, w) => [Piece.lit (fixLen h 32 w)]))
+  let rule := sep (ws.map (fun w => [Piece.lit (List.replicate w 45)]))
+  let rows := (List.range (min f.n 50)).map (fun r =>
+    sep ((List.zip f.cols ws).map (fun (c, w) =>
+      match c.cells[r]! with
+      | .int x => [Piece.lit (fixLen (intStr x) 32 w)]
+      | .bool b => [Piece.lit (fixLen (strBytes (if b then "true" else "false")) 32 w)]
+      | .str none => [Piece.lit (fixLen (strBytes "null") 32 w)]
+      | .str (some s) => [Piece.lit (fixLen s 32 w)]
+      | .float b => if F64.isNaN b then [Piece.lit (fixLen (strBytes "null") 32 w)] else [Piece.flt w b])))
+  let nl : List Piece := [Piece.lit [10]]
+  header ++ nl ++ rule ++ (rows.map (fun r => nl ++ r)).flatten ++
+    (if f.n > 50 then nl ++ [Piece.lit (strBytes "... printout truncated ...")] else []) ++
+    nl ++ nl ++ [Piece.lit (strBytes s!"Dims = {f.cols.length} x {f.n}")]
+
+/-- `none` = the text printed by String() shows exactly the frame (up to the documented truncations). -/
+def stringDenotes (f : LFrame) (out : Bytes) : Option String :=
+  let rec go (fuel : Nat) (ps : List Piece) (rest : Bytes) : Option String :=
+    match fuel with
+    | 0 => some "fuel"
+    | fuel + 1 =>
+      match ps with
+      | [] => if rest.isEmpty then none else some "trailing output"
+      | .lit b :: ps' => if b.isPrefixOf rest then go fuel ps' (rest.drop b.length) else some s!"expected {repr b} at {repr (rest.take 40)}"
+      | .flt w bits :: ps' =>
+        let field := rest.take w
+        let txt := field.dropWhile (· == 32)
+        let ok :=
+          if field.length != w then false
+          else if txt.length == w && txt.drop (w - 3) == [46, 46, 46] then true     -- cut to the column width: digits not checked
+          else if (bits &&& 0x7fffffffffffffff) == 0x7ff0000000000000 then txt == strBytes (if F64.sign bits then "-Inf" else "+Inf")
+          else Num.isShortestRoundTrip bits txt
+        if ok then go fuel ps' (rest.drop w) else some s!"float cell {repr field} does not show the float {bits}"
+  go (out.length + 10 * (f.n + 5) * (f.cols.length + 2) + 100) (stringPieces f) out
+
 end QF
